@@ -28,6 +28,12 @@ type exprProgram struct {
 	tree ast.Node
 }
 
+type exprOpt struct {
+	kind string
+	name string
+	env  any
+}
+
 type opaqueNative struct {
 	id int
 }
@@ -39,11 +45,24 @@ var (
 )
 
 func init() {
+	// options are carried as opaque closures and replayed on the real library
 	intrinsics["github.com/expr-lang/expr.AllowUndefinedVariables"] = func(fr *frame, a []value) value {
-		return &closure{} // opaque option
+		return &closure{Env: []value{nativeObj{exprOpt{kind: "allowundef"}}}}
 	}
 	intrinsics["github.com/expr-lang/expr.DisableBuiltin"] = func(fr *frame, a []value) value {
-		return &closure{}
+		return &closure{Env: []value{nativeObj{exprOpt{kind: "disable", name: fr.i.concStr(a[0])}}}}
+	}
+	intrinsics["github.com/expr-lang/expr.Env"] = func(fr *frame, a []value) value {
+		nv, ok := fr.i.toNativeAny(a[0], map[int]value{})
+		if !ok {
+			// symbolic values in the environment: keep their kinds by
+			// concretising a copy (types, not values, matter to the compiler)
+			nv, ok = fr.i.toNativeAny(fr.i.deepConcretize(a[0]), map[int]value{})
+			if !ok {
+				unsupported("expr.Env with a non-convertible environment")
+			}
+		}
+		return &closure{Env: []value{nativeObj{exprOpt{kind: "env", env: nv}}}}
 	}
 	intrinsics["github.com/expr-lang/expr.Compile"] = inExprCompile
 	intrinsics["github.com/expr-lang/expr.Run"] = inExprRun
@@ -52,7 +71,25 @@ func init() {
 func inExprCompile(fr *frame, a []value) value {
 	i := fr.i
 	src := i.concStr(a[0])
-	prog, err := expr.Compile(src, expr.AllowUndefinedVariables(), expr.DisableBuiltin("count"))
+	var opts []expr.Option
+	if len(a) > 1 && a[1] != nil {
+		for _, o := range a[1].([]value) {
+			c, ok := o.(*closure)
+			if !ok || c == nil || len(c.Env) != 1 {
+				unsupported("expr.Compile with an option the bridge does not know")
+			}
+			op := c.Env[0].(nativeObj).v.(exprOpt)
+			switch op.kind {
+			case "allowundef":
+				opts = append(opts, expr.AllowUndefinedVariables())
+			case "disable":
+				opts = append(opts, expr.DisableBuiltin(op.name))
+			case "env":
+				opts = append(opts, expr.Env(op.env))
+			}
+		}
+	}
+	prog, err := expr.Compile(src, opts...)
 	if err != nil {
 		return tuple{(*value)(nil), i.newError(err.Error(), iface{})}
 	}
